@@ -209,13 +209,73 @@ def gen_items(tier, seed):
         items.append(('G9', {'kind': 'utxo250_equal', 'strategy': st}))
         if not quick or st != 'random_draw':
             items.append(('G9', {'kind': 'utxo250_distinct', 'strategy': st}))
+    # G10: histories on one ledger (anything remembered about a UTXO across builds must follow the database)
+    for a in history_items(tier):
+        items.append(('G10', dict(a, tier=tier)))
     return items
+
+
+HISTORY_WALLETS = [
+    [('1', 'conf'), ('5', 'mem0')], [('1', 'conf'), ('5', 'memneg')], [('5', 'conf'), ('1', 'mem0')],
+    [('cent', 'conf'), ('1', 'conf'), ('5', 'mem0')], [('5', 'mem0')], [('1', 'conf'), ('1', 'conf')],
+]
+HISTORY_REFS = ['max', 'total', 'cmax', 'ctotal', 'min']
+
+
+def history_items(tier):
+    """G10: multi-step histories on ONE ledger object.  history = list of steps executed before the judged
+    build: ['build', deficit, strategy|'same', 'release'|'hold'|'save'] (a real Transaction.create that
+    enumerates the wallet, then abandoned / kept / recorded as seen in the mempool), ['confirm'] (every
+    unconfirmed funding transaction gets a block height through save_transaction_io), ['reorg'] (confirmed ->
+    mempool), ['reserve'|'release'|'spend', coin index], ['arrive', amount, state], ['fpb', fee rate]."""
+    quick = tier == 'quick'
+    small = 30000
+    b_release = ['build', small, 'same', 'release']
+    b_hold = ['build', small, 'same', 'hold']
+    b_save = ['build', small, 'same', 'save']
+    b_refused = ['build', 10 ** 11, 'same', 'release']
+    items = []
+    for w in HISTORY_WALLETS:
+        big = max(range(len(w)), key=lambda i: (amount_of(w[i][0], 50), -i))
+        tails = {
+            'none': [], 'confirm': [['confirm']], 'reorg': [['reorg']], 'reserve': [['reserve', big]],
+            'spend': [['spend', big]], 'arrive-conf': [['arrive', 3 * COIN, 'conf']],
+            'arrive-mem0': [['arrive', 3 * COIN, 'mem0']], 'fpb-up': [['fpb', 1000]], 'fpb-down': [['fpb', 1]],
+        }
+        for name, tail in tails.items():
+            firsts = [b_release, b_hold, b_save, b_refused] if (name in ('none', 'confirm') or not quick) else [b_release, b_save]
+            for first in firsts:
+                items.append({'syms': w, 'history': [first] + tail})
+        # reserved while the wallet is enumerated, released afterwards; coin arrives unconfirmed, is enumerated, confirms
+        items.append({'syms': w, 'history': [['reserve', big], b_release, ['release', big]]})
+        items.append({'syms': w, 'history': [b_release, ['arrive', 3 * COIN, 'mem0'], b_release, ['confirm']]})
+        items.append({'syms': w, 'history': [b_release, ['confirm'], b_release, ['reorg']]})
+    return items
+
+
+def history_cases(a, tier, seed):
+    quick = tier == 'quick'
+    strategies = (['only_confirmed', 'prefer_confirmed', 'sqlite', 'standard'] if quick
+                  else ALL_STRATEGIES + [None])
+    fpb = 50
+    big_c = (10 + PRICE_BYTES)
+    coins = mk_coins([tuple(x) for x in a['syms']], fpb)
+    for st in strategies:
+        for ref in (HISTORY_REFS[:4] if quick else HISTORY_REFS):
+            # surplus in units that scale with the fee rate in force at the judged build: (fee bytes, dewies)
+            for sur in ([(0, -1), (0, 0), (big_c, DUST + 1)] if quick else
+                        [(0, -1), (0, 0), (0, 1), (PRICE_BYTES, 0), (PRICE_BYTES, 1), (big_c, DUST), (big_c, DUST + 1)]):
+                yield {'coins': coins, 'shape': 'pay1', 'deficit': None, 'deficit_spec': [ref, list(sur)], 'strategy': st,
+                       'fpb': fpb, 'fpb0': fpb, 'fpnc': 0, 'pre': False, 'used_change': 0, 'perm': 0, 'choice': seed,
+                       'history': a['history']}
 
 
 def expand(group, a, seed):
     """Cases of one generator item."""
     if group == 'G9':
         return list(single_cases(a, seed))
+    if group == 'G10':
+        return list(history_cases(a, a['tier'], seed))
     fpb = a['fpb']
     coins = mk_coins([tuple(s) if isinstance(s, list) else s for s in a['syms']], fpb)
     if a.get('decoys'):
@@ -391,7 +451,7 @@ def lbry_site(tb):
 def make_harness(case):
     from vf.wallet_h import WalletH, Coin
     coins = [Coin.from_spec(c) for c in case['coins']]
-    fpb = case['fpb']
+    fpb = case.get('fpb0', case['fpb'])      # histories may change the fee rate before the judged build
     if case['shape'] == 'update':
         # the claim being updated: a claim output of the wallet, spent by the update (not reserved)
         coins.append(Coin(CENT, 'conf', 'claim', ['pre'], 2))
@@ -484,16 +544,142 @@ class Session:
         self.key = None
 
 
+async def apply_history(h, case, log):
+    """Execute the steps of case['history'] on the harness's one ledger through the real code paths."""
+    from lbry.error import InsufficientFundsError
+    from lbry.wallet import Transaction, Input, Output
+    from vf.wallet_h import PAYEE_HASH, FOREIGN_HASH, STATES
+    ledger, acct, db = h.ledger, h.account, h.ledger.db
+    h160 = ledger.address_to_hash160
+    final_strategy = ledger.coin_selection_strategy
+    coins = [c for c in h.coins]
+
+    async def resave(ftx, txos):
+        seen = set()
+        for txo in txos:
+            address = txo.get_address(ledger)
+            if address in seen:
+                continue
+            seen.add(address)
+            await db.save_transaction_io(ftx, address, h160(address), f'{ftx.id}:{ftx.height}:')
+
+    def funding_of(pred):
+        out = {}
+        for c in coins:
+            ftx = c.txo.tx_ref.tx
+            if pred(ftx):
+                out.setdefault(id(ftx), (ftx, []))[1].append(c.txo)
+        return list(out.values())
+
+    serial = 0
+    for step in case['history']:
+        op = step[0]
+        serial += 1
+        if op == 'build':
+            _, d1, strat, then = step
+            ledger.coin_selection_strategy = final_strategy if strat == 'same' else strat
+            x = d1 - (10 + OUT_BYTES) * ledger.fee_per_byte
+            try:
+                tx = await Transaction.create([], [Output.pay_pubkey_hash(x, PAYEE_HASH)], [acct], acct)
+            except InsufficientFundsError:
+                log.append('build: refused')
+                tx = None
+            ledger.coin_selection_strategy = final_strategy
+            if tx is not None:
+                log.append(f'build: {len(tx.inputs)} input(s), then {then}')
+                if then == 'release':
+                    await ledger.release_tx(tx)
+                elif then == 'save':
+                    # the wallet sees its own transaction in the mempool (what history sync records)
+                    tx.height, tx.is_verified = 0, False
+                    mine = [txi.txo_ref.txo for txi in tx.inputs] + \
+                        [o for o in tx.outputs[1:] if o.script.is_pay_pubkey_hash]
+                    await resave(tx, mine)
+        elif op == 'confirm':
+            for ftx, txos in funding_of(lambda t: t.height <= 0):
+                ftx.height, ftx.is_verified = 7, True
+                await resave(ftx, txos)
+            log.append('confirm')
+        elif op == 'reorg':
+            for ftx, txos in funding_of(lambda t: t.height > 0):
+                ftx.height, ftx.is_verified = 0, False
+                await resave(ftx, txos)
+            log.append('reorg')
+        elif op == 'reserve':
+            await ledger.reserve_outputs([coins[step[1]].txo])
+        elif op == 'release':
+            await ledger.release_outputs([coins[step[1]].txo])
+        elif op == 'spend':
+            txo = coins[step[1]].txo
+            spender = Transaction(is_verified=True, height=8).add_inputs([Input.spend(txo)]).add_outputs(
+                [Output.pay_pubkey_hash(txo.amount - 10000, FOREIGN_HASH)])
+            await resave(spender, [txo])
+        elif op == 'arrive':
+            _, amount, state = step
+            out = Output.pay_pubkey_hash(amount, h160(h.addresses[serial % 2]))
+            fake = Output.pay_pubkey_hash(amount + 7000 + serial, FOREIGN_HASH)
+            Transaction(is_verified=True, height=1).add_outputs([fake])
+            ftx = Transaction(**STATES[state]).add_inputs([Input.spend(fake)]).add_outputs([out])
+            await resave(ftx, [out])
+            from vf.wallet_h import Coin
+            c = Coin(amount, state)
+            c.txo = out
+            coins.append(c)
+        elif op == 'fpb':
+            ledger.fee_per_byte = step[1]
+        else:
+            raise ValueError(step)
+
+
+def resolve_deficit(h, case):
+    """deficit_spec = [reference, [fee bytes, dewies]] -> number, from the CURRENT txo table."""
+    ref, (nbytes, extra) = case['deficit_spec']
+    fpb = h.ledger.fee_per_byte
+    acc = h.account.public_key.address
+    types = (0,) if case['strategy'] == 'sqlite' else (0, 4)
+    eff = [(r['amount'] - IN_BYTES * fpb, r['height']) for r in h.rows().values()
+           if not r['spent'] and not r['is_reserved'] and r['account'] == acc and r['txo_type'] in types]
+    pos = [e for e, _ in eff if e > 0]
+    cpos = [e for e, hgt in eff if e > 0 and hgt > 0]
+    value = {'max': max(pos, default=None), 'min': min(pos, default=None), 'total': sum(pos) if pos else None,
+             'cmax': max(cpos, default=None), 'ctotal': sum(cpos) if cpos else None}[ref]
+    if value is None:
+        return None
+    return value - (nbytes * fpb + extra)
+
+
+def history_name(case):
+    return '+'.join(':'.join(str(x) for x in (st[0], st[3]) if x) if st[0] == 'build' else st[0]
+                    for st in case.get('history') or [])
+
+
 def execute(case, session=None):
     """Run one case.  -> observation dict (everything the oracle needs)."""
     from lbry.error import InsufficientFundsError
     obs = {'skipped': False}
-    own = session is None
+    own = session is None or bool(case.get('history'))
     if own:
-        session = Session()
+        session = Session()     # histories always start from a fresh ledger
     try:
         h = session.get(case)
         obs['fresh_wallet'] = session.fresh
+        if case.get('history'):
+            obs['history_log'] = []
+            try:
+                h.run(apply_history(h, case, obs['history_log']))
+            except Exception as e:   # noqa - a step of the history failed inside lbry: judged like any other failure
+                obs.update(outcome='exception', exc_type=type(e).__name__, exc_site=lbry_site(e.__traceback__),
+                           exc_text=repr(e)[:200], expected=[], pre_ids=[], before=h.rows(), after=h.rows(),
+                           account=h.account.public_key.address, new_addresses=0, change_chain=set(), selected=[],
+                           shuffles=[], choices=[], loop_exceptions=[], in_history=True)
+                return obs
+            case['fpb'] = h.ledger.fee_per_byte
+            case['deficit'] = resolve_deficit(h, case)
+            del h.selected[:]
+            h.script.shuffles, h.script.choices = [], []
+            if case['deficit'] is None:
+                obs['skipped'] = True
+                return obs
         before = h.rows()
         naddr = h.address_count()
         coro, expected, pre_ids = build_request(h, case)
@@ -562,6 +748,9 @@ def judge(case, obs, res):
 
     def viol(sig, what):
         sig = dict(sig)
+        if case.get('history'):
+            sig['history'] = history_name(case)
+            what += f' [after history {sig["history"]}]'
         lines.append('VIOLATION ' + what)
         res.violation(sig, what, case)
 
@@ -750,7 +939,8 @@ def eval_case(case, res, session):
     if spendable_n:
         res.distinct_add('nontrivial', (tuple(map(repr, case['coins'])), case['shape'], case['deficit'],
                                         case.get('pre_amount'), case['strategy'], case['fpb'], case['fpnc'],
-                                        case['pre'], case['used_change'], case['choice']))
+                                        case['pre'], case['used_change'], case['choice'],
+                                        repr(case.get('history')), repr(case.get('deficit_spec'))))
         res.distinct_add('outcome_classes', (case['strategy'], case['shape'], obs['outcome'],
                                              len(obs.get('raw', b'')) if obs['outcome'] == 'tx' else 0))
     if obs['shuffles'] and case['perm'] == 0:
@@ -789,7 +979,7 @@ def work(item, res):
 def run(ctx):
     items = gen_items(ctx.tier, ctx.seed)
     # group generator items into pool items of comparable cost
-    weights = {'G1': 12, 'G2': 12, 'G3': 8, 'G4': 2, 'G5': 12, 'G6': 1, 'G7': 10, 'G8': 4, 'G9': 1}
+    weights = {'G1': 12, 'G2': 12, 'G3': 8, 'G4': 2, 'G5': 12, 'G6': 1, 'G7': 10, 'G8': 4, 'G9': 1, 'G10': 4}
     pool_items = []
     by_group = {}
     for g, a in items:
@@ -846,6 +1036,8 @@ def replay(data):
     obs = execute(data)
     lines = [f"case: shape {data['shape']} strategy {data['strategy']} fee_per_byte {data['fpb']} deficit {data.get('deficit')} "
              f"pre-chosen {data['pre']} coins {[(c[0], c[1], c[2], c[3]) for c in data['coins']][:8]}"]
+    if data.get('history'):
+        lines.append(f"history before the judged build: {data['history']} -> {obs.get('history_log')}; target {data.get('deficit_spec')}")
     if obs['skipped']:
         lines.append('skipped (target amount would be < 1)')
     else:
